@@ -193,7 +193,7 @@ def r10_1(q, R, spec):
             continue
         sl = spec["levels"][lv]
         rec = {"empty": {}, "ns": [], "foreign": []}
-        f = _closure_formula(L["body"], _remove_atom(L, rec))
+        f = _closure_formula(L["body"], _remove_atom(L, rec, q, fn["body"]))
         name = ("atom", "name-present")
         tests = [("atom", "prefix:" + p) for p in sl["prefixes"]] + [("atom", "eq:" + e) for e in sl["equals"]]
         ph = tests[0]
@@ -242,27 +242,59 @@ def r10_1(q, R, spec):
     R.floor(rid, 19)
 
 
-def _remove_atom(L, rec):
+def _remove_atom(L, rec, q=None, fn_body=None):
+    """Atoms of a remove_dummy keep-predicate.  The name test may be written as
+      names[ns].as_ref().is_some_and(P) / .is_none_or(P) / .map_or(const, P)   with P a closure, a let-bound closure or a function,
+      match &names[ns] { Some(x) => F(x), None => G }   /   if let Some(x) = &names[ns] { F(x) } else { G }
+    and, inside, `x.as_inner().starts_with(lit)`, `x == CONST` (literal or named constant, consts arrive evaluated)."""
     v_id = L["v"]
     root_body = L["body"]
+    name_ids = set()          # locals bound to the (present) name of this node
 
-    def inner_atom(x_id):
-        def at(n):
-            k = n.get("k")
-            if k == "mcall" and n["name"] in ("starts_with", "ends_with", "contains") and len(n["args"]) == 1:
-                root, path = H.place_root(n["recv"])
-                lit = H.const_value(n["args"][0])
-                if root and root[0] == x_id and not _plain(path) and isinstance(lit, str):
-                    return ("atom", ("prefix:" if n["name"] == "starts_with" else n["name"] + ":") + lit)
-            if k == "bin" and n["op"] in ("==", "!="):
-                for a, b in ((n["l"], n["r"]), (n["r"], n["l"])):
-                    l = H.local_of(a)
-                    val = H.const_value(b)
-                    if l and l[0] == x_id and isinstance(val, str):
-                        f = ("atom", "eq:" + val)
-                        return f if n["op"] == "==" else ("not", f)
+    def names_place(e):
+        """index node when `e` is `<this node>.info.names[<ns>]` (through as_ref / refs), 'other' for another node's names, else None"""
+        root, path = H.place_root(e)
+        if _plain(path) != ["info", "names", "[]"]:
             return None
-        return at
+        if not (root and root[0] == v_id):
+            return "other"
+        ix = [x for x in H.walk(e) if x.get("k") == "index"]
+        return ix[0] if len(ix) == 1 else None
+
+    def predicate(arg):
+        """(param id, body) of the predicate passed to is_some_and & co."""
+        c = H.peel(arg)
+        if c.get("k") == "path" and c["res"].get("r") == "local":
+            for scope in (root_body, fn_body):
+                init = H.let_init_of(scope, c["res"]["id"]) if scope is not None else None
+                if init is not None:
+                    c = H.peel(init)
+                    break
+        if c.get("k") == "closure" and len(c["params"]) == 1 and c["params"][0].get("k") == "bind":
+            return c["params"][0]["id"], c["body"]
+        if c.get("k") == "path" and c["res"].get("r") == "def" and q is not None and c["res"].get("key") in q.by_key:
+            fb = q.by_key[c["res"]["key"]]
+            ids = H.param_ids(fb)
+            if len(ids) == 1:
+                return ids[0], fb["body"]
+        return None
+
+    def some_none_arms(n):
+        """match on Option: (binding ids of Some(..), Some-arm body, None-arm body)"""
+        some_arm = none_arm = None
+        for a in n["arms"]:
+            if "guard" in a:
+                return None
+            v = H.pat_variant(a["pat"])
+            if v and v[1] == "Some" and some_arm is None:
+                some_arm = a
+            elif (v and v[1] == "None") or H.pat_peel(a["pat"]).get("k") == "wild":
+                none_arm = none_arm or a
+            else:
+                return None
+        if some_arm is None or none_arm is None:
+            return None
+        return [i for i, _ in H.pat_bindings(some_arm["pat"])], some_arm["body"], none_arm["body"]
 
     def atom(n):
         k = n.get("k")
@@ -271,11 +303,44 @@ def _remove_atom(L, rec):
             if init is not None:
                 return B.formula(init, atom)
             return None
+        if k == "letexpr":                       # `if let Some(x) = &names[ns]`
+            ix = names_place(n["init"])
+            v = H.pat_variant(n["pat"])
+            if isinstance(ix, dict) and v and v[1] == "Some":
+                rec["ns"].append(ix["i"])
+                name_ids.update(i for i, _ in H.pat_bindings(n["pat"]))
+                return ("atom", "name-present")
+            if ix == "other":
+                return ("atom", "name-of-another-node:" + H.render(n["init"]))
+            return None
+        if k == "match":
+            ix = names_place(n["scrut"])
+            arms = some_none_arms(n) if isinstance(ix, dict) else None
+            if arms:
+                rec["ns"].append(ix["i"])
+                name_ids.update(arms[0])
+                return ("ite", ("atom", "name-present"), B.formula(arms[1], atom), B.formula(arms[2], atom))
+            if ix == "other":
+                return ("atom", "name-of-another-node:" + H.render(n["scrut"]))
+            return None
+        if k == "bin" and n["op"] in ("==", "!="):
+            for a, b in ((n["l"], n["r"]), (n["r"], n["l"])):
+                l = H.local_of(a)
+                val = H.const_value(b)
+                if l and l[0] in name_ids and isinstance(val, str):
+                    f = ("atom", "eq:" + val)
+                    return f if n["op"] == "==" else ("not", f)
+            return None
         if k != "mcall":
             return None
         nm = n["name"]
         root, path = H.place_root(n["recv"])
         pp = _plain(path)
+        if nm in ("starts_with", "ends_with", "contains") and len(n["args"]) == 1:
+            lit = H.const_value(n["args"][0])
+            if root and root[0] in name_ids and not pp and isinstance(lit, str):
+                return ("atom", ("prefix:" if nm == "starts_with" else nm + ":") + lit)
+            return None
         if nm in ("is_some", "is_none") and pp == ["javadoc"]:
             if not (root and root[0] == v_id):
                 return ("atom", "javadoc-of-another-node:" + H.render(n["recv"]))
@@ -286,15 +351,16 @@ def _remove_atom(L, rec):
                 return ("atom", "child-map-of-another-node:" + H.render(n["recv"]))
             rec["empty"].setdefault(pp[0], []).append(n)
             return ("atom", "empty:" + pp[0])
-        if nm in ("is_some_and", "is_none_or", "map_or") and pp == ["info", "names", "[]"]:
-            if not (root and root[0] == v_id):
+        if nm in ("is_some_and", "is_none_or", "map_or"):
+            ix = names_place(n["recv"])
+            if ix == "other":
                 return ("atom", "name-of-another-node:" + H.render(n["recv"]))
-            ix = [x for x in H.walk(n["recv"]) if x.get("k") == "index"]
-            clo = H.peel(n["args"][-1]) if n["args"] else {}
-            if len(ix) != 1 or clo.get("k") != "closure" or len(clo["params"]) != 1 or clo["params"][0].get("k") != "bind":
+            pred = predicate(n["args"][-1]) if (isinstance(ix, dict) and n["args"]) else None
+            if pred is None:
                 return None
-            rec["ns"].append(ix[0]["i"])
-            inner = B.formula(clo["body"], inner_atom(clo["params"][0]["id"]))
+            rec["ns"].append(ix["i"])
+            name_ids.add(pred[0])
+            inner = B.formula(pred[1], atom)
             some = ("atom", "name-present")
             if nm == "is_some_and":
                 return ("and", some, inner)
@@ -473,8 +539,8 @@ def r10_2(q, R, spec):
                     for st in stmts:
                         e.stmt(st, env)
                     got = env.get(val_id)
-                except T.Return as r:
-                    got = ("v", "return", [r.v])
+                except T.Return as r:        # an early exit of the predicate after the validator was computed does not concern the table
+                    got = env.get(val_id, ("v", "return", [r.v]))
                 except T.Break:
                     got = T.sym("<break>")
                 got = got if got is not None else T.sym("<validator not evaluated>")
@@ -490,7 +556,9 @@ def r10_2(q, R, spec):
                     R.inst(rid, key, ok, sp=L["closure"]["sp"], expect="true; node.info = %s" % T.show(want_v), got=got_s,
                            detail="a removal becomes an edit back to the placeholder (%s)" % sl["placeholder"])
         pos = U.preorder_pos(L["closure"])
-        ok = bool(rec["diff"]) and bool(assigns_here) and max(pos[id(x)] for x in assigns_here) < min(pos[id(x)] for x in rec["diff"])
+        early = [x for x in own if x.get("k") == "ret" and assigns_here and pos[id(x)] < max(pos[id(y)] for y in assigns_here)]
+        ok = (bool(rec["diff"]) and bool(assigns_here) and max(pos[id(x)] for x in assigns_here) < min(pos[id(x)] for x in rec["diff"])
+              and not early)
         R.inst(rid, "rewrite-before-is-diff:" + lv, ok, sp=L["closure"]["sp"],
                detail="info.is_diff() must see the action after Remove was rewritten to Edit(old, placeholder)")
     # the only change made to a retained node is the Remove -> Edit rewrite of its own `info`
